@@ -15,5 +15,6 @@ sed -i "s|=> /repo|=> $W/repo|" "$W/verif/go.mod"
 VERIF_REPO="$W/repo" "$W/verif/check.sh" "$ID" "$TIER" > "$W/out.log" 2>&1; rc=$?
 grep -m3 -A1 "^VIOLATION" "$W/out.log" | cut -c1-420
 grep "^$ID $TIER\|CHECK-ERROR" "$W/out.log" | cut -c1-200
+[ $rc -ne 0 ] && [ $rc -ne 1 ] && tail -8 "$W/out.log" | cut -c1-300
 echo "seed exit=$rc"
 exit $rc
